@@ -5,7 +5,80 @@ import random
 from lib import core, tlc, fixedrec
 
 
-def check_point(rep, parser, tab, kind, fields, focus, cls, out, rng, nvariants, readfn):
+FILEQ = {}
+
+
+def file_level(rep, fff, tabs, index, rng):
+    """The same records through the file-level calls: write_values to a real file, read_values back.  The string-level result
+    (already checked against the model) is the oracle.  Variants: the last name of a record ending in blanks; a name with a
+    non-ASCII character (written alone to its own file: the write may fail loudly, it must not shift the record)."""
+    import os
+    import tempfile
+    fields_of = dict(((t, k), f) for t, k, f in index)
+    for tab, spec, readfn in tabs:
+        recs = FILEQ.get(tab, [])
+        extra = []
+        for kind, vals in recs[::5]:
+            fs = fields_of[(tab, kind)]
+            last = max([j for j, f in enumerate(fs) if f["t"] != "x"] or [-1])
+            if last >= 0 and fs[last]["t"] == "s" and fs[last]["w"] >= 2:
+                v2 = list(vals)
+                v2[last] = ("a" + " " * (fs[last]["w"] - 1))
+                extra.append((kind, v2))
+        recs = recs + extra
+        if not recs:
+            continue
+        fd, path = tempfile.mkstemp(prefix="verif-ffile-")
+        os.close(fd)
+        try:
+            w = fff.fixed_format_file(path, "w", spec, readfn)
+            want = []
+            for kind, vals in recs:
+                want.append(w.parse_string(w.write_values_to_string(vals, kind), kind))
+                w.write_values(vals, kind)
+            w.close()
+            r = fff.fixed_format_file(path, "r", spec, readfn)
+            for (kind, vals), exp in zip(recs, want):
+                got = r.read_values(kind)
+                rep.case(("file", tab, kind, len(rep.distinct)))
+                if len(got) != len(exp) or any(not fixedrec.same(a, b) for a, b in zip(got, exp)):
+                    rep.violation("file-level:%s" % tab, "P5_file_level_equals_string_level",
+                                  {"table": tab, "kind": kind, "values": vals, "string_level": exp, "file_level": got})
+                    break
+            r.close()
+            # a non-ASCII character in a name
+            for kind, vals in recs[:40]:
+                fs = fields_of[(tab, kind)]
+                cand = [j for j, f in enumerate(fs) if f["t"] == "s" and f["w"] >= 3 and isinstance(vals[j], str)]
+                if not cand:
+                    continue
+                v2 = list(vals)
+                j = cand[0]
+                v2[j] = ("\u00c8" + v2[j][1:]) if v2[j] else v2[j]
+                try:
+                    w = fff.fixed_format_file(path, "w", spec, readfn)
+                    exp = w.parse_string(w.write_values_to_string(v2, kind), kind)
+                    w.write_values(v2, kind)
+                    w.close()
+                except (UnicodeError, ValueError):
+                    continue            # failing loudly is allowed
+                r = fff.fixed_format_file(path, "r", spec, readfn)
+                try:
+                    got = r.read_values(kind)
+                except UnicodeError:
+                    r.close()
+                    continue
+                r.close()
+                rep.case(("file-nonascii", tab, kind))
+                if len(got) != len(exp) or any(not fixedrec.same(a, b) for a, b in zip(got, exp)):
+                    rep.violation("file-level:non-ascii:%s" % tab, "P3_no_displacement",
+                                  {"table": tab, "kind": kind, "values": v2, "string_level": exp, "file_level": got})
+                    break
+        finally:
+            os.unlink(path)
+
+
+def check_point(rep, parser, tab, kind, fields, focus, cls, out, rng, nvariants, readfn, file_share=0.0):
     """Replays one lattice point (record kind, field, value class) through the real writer and parser."""
     f = fields[focus]
     width = sum(x["w"] for x in fields)
@@ -47,6 +120,8 @@ def check_point(rep, parser, tab, kind, fields, focus, cls, out, rng, nvariants,
         if out["o"] == "FITS":
             if not fixedrec.same(got[focus], fixedrec.expected_parse(f, v, readfn)):
                 rep.violation(key + ":value", "P2_field_parses_to_written_value", detail)
+            elif variant == 0 and rng.random() < file_share:
+                FILEQ.setdefault(tab, []).append((kind, list(vals)))
         elif out["o"] == "TRIM":
             if not fixedrec.reduced_ok(f, v, got[focus]):
                 rep.violation(key + ":value", "P4_loses_precision_only", detail)
@@ -85,7 +160,7 @@ def run(tier):
         for e in r.emitted:
             tab, kind, fields = index[e["rk"] - 1]
             parser, readfn = parsers[tab]
-            check_point(rep, parser, tab, kind, fields, e["focus"] - 1, e["cls"], e["out"], rng, nvar, readfn)
+            check_point(rep, parser, tab, kind, fields, e["focus"] - 1, e["cls"], e["out"], rng, nvar, readfn, file_share=0.3 if quick else 1.0)
         rep.traces += len(r.emitted)
         rep.extra["lattice_points"] = len(r.emitted)
         # exponent sweep -120..120 for every real field (thorough: all; quick: every 7th)
@@ -106,13 +181,16 @@ def run(tier):
                         v = float("%s%d.%se%d" % ("-" if neg else "", rng.randint(1, 8),
                                                   "".join(rng.choice("0123456789") for _ in range(12)), ex))
                         sweep_point(rep, parser, tab, kind, fields, focus, cls, out, v, rng, readfn)
+        file_level(rep, fff, tabs, index, rng)
     finally:
+        FILEQ.clear()
         for p, _ in parsers.values():
             p.close()
     rep.rule = ("every (record kind, field, value class) of FixedRecord's lattice concretised %d times with random "
                 "fitting values (or None) in the other fields; plus exponent sweep -120..120 step %d x sign on every "
                 "e-field; distinct = (table, kind, field, class, variant)" % (nvar, step))
-    rep.leaves = ["expected parse of a fitting value = Python '%' formatting of that value alone, converted by float()/int()"]
+    rep.leaves = ["file level (write_values / read_values through a real file) compared with the string level for a share of the records, incl. names ending in blanks and a non-ASCII name",
+                  "expected parse of a fitting value = Python '%' formatting of that value alone, converted by float()/int()"]
     rep.assumptions = ["other fields hold values that fit; g-format does not occur in the tables"]
     rep.exhaustive = False
     return rep.finish()
